@@ -43,7 +43,59 @@ MATRIX_SHAPES = [("u8", [0, 1, 2]), ("i16", [-5, -4, 3, 9])]
 
 
 def fixed_cases(tier):
-    return [{"param_matrix": True}]
+    return [{"param_matrix": True}, {"contradiction_matrix": True}]
+
+
+I64MIN, I64MAX = -2 ** 63, 2 ** 63 - 1
+HOLES_SHAPES = [("u8", [0, 2]), ("i8", [-128, 127]), ("i8", [-128, -127, 126, 127]), ("u16", [0, 1, 65535]), ("i64", [I64MIN, I64MAX]),
+                ("i64", [I64MIN, 0, I64MAX - 1]), ("i64", [I64MIN, I64MIN + 1, I64MAX]), ("i128", [I64MIN, I64MAX]), ("isize", [I64MIN, I64MAX]),
+                ("isize", [I64MIN, -1, I64MAX - 1]), ("u64", [0, I64MAX]), ("u64", [0, 1, I64MAX - 1, I64MAX]), ("u128", [0, 2 ** 32, I64MAX]),
+                ("i32", [-2 ** 31, 2 ** 31 - 1]), ("u32", [0, 65536, 2 ** 32 - 1]), ("usize", [0, 2 ** 32]), ("i16", [-5, -4, 3, 9, 10])]
+ANY_SHAPES = HOLES_SHAPES + [("u8", [0, 1, 2]), ("i8", [-2, -1, 0, 1]), ("u8", list(range(256))), ("i64", [I64MAX - 1, I64MAX])]
+
+
+def run_contradiction_matrix(case):
+    """The three documented contradictions on every fixed shape (including spans that wrap around 2^64), and every
+    string parameter given twice in every bare/value combination: each must be rejected."""
+    import concurrent.futures
+    out = J.Outcome()
+    jobs = []
+
+    def spec_of(r, vals):
+        return {"repr": r, "vis": "pub", "ident": "E", "enum_attrs": [],
+                "variants": [{"ident": "V%d" % i, "disc": str(v)} for i, v in enumerate(vals)]}
+
+    def cfg_raw(raws):
+        feats = [{"f": "_raw", "raw": r_} for r_ in raws]
+        return {"feats": feats, "groups": [len(feats)], "pos": ["pre"]}
+    for r, vals in HOLES_SHAPES:
+        for raws in (["iter(mode = \"range\")"], ["into", "iter(mode = \"range\")", "try_from"], ["iter(mode = \"range\")", "names"]):
+            jobs.append(("iter_range_on_holes", "%s %s" % (r, raws), E.enum_item_text(spec_of(r, vals), cfg_raw(raws))))
+    for r, vals in ANY_SHAPES:
+        for raws in (["range"], ["range", "into"], ["range(name = \"r\")", "names"]):
+            jobs.append(("range_without_iter", "%s %s" % (r, raws), E.enum_item_text(spec_of(r, vals), cfg_raw(raws))))
+        for raws in (["iter(mode = \"table_inline\")", "range"], ["range", "iter(mode = \"table_inline\")"]):
+            jobs.append(("range_table_inline", "%s %s" % (r, raws), E.enum_item_text(spec_of(r, vals), cfg_raw(raws))))
+    dup_forms = lambda k, v: ["%s, %s" % (k, k), "%s = %s, %s = %s" % (k, v, k, v), "%s, %s = %s" % (k, k, v), "%s = %s, %s" % (k, v, k)]
+    for fname, legal in sorted(MU.PARAM_FEATURES.items()):
+        if fname == "sorted":
+            legal_vals = [("name", "\"x\""), ("value", "\"x\"")]
+        else:
+            legal_vals = [(k, {"name": "\"n_x\"", "vis": "\"pub\"", "mode": "\"table\"", "struct_name": "\"XS\""}[k]) for k in legal]
+        for k, v in legal_vals:
+            for form in dup_forms(k, v):
+                raws = (["iter"] if fname == "range" else []) + ["%s(%s)" % (fname, form)]
+                jobs.append(("dup_param", "%s(%s)" % (fname, form), E.enum_item_text(spec_of("u8", [0, 1, 2]), cfg_raw(raws))))
+    with concurrent.futures.ThreadPoolExecutor(max_workers=16) as ex:
+        res = list(ex.map(lambda j: J.accepts(j[2])[0], jobs))
+    for (kind, what, item), ok in zip(jobs, res):
+        out.count("matrix_" + kind)
+        if ok:
+            out.violate("an invalid / contradictory configuration was accepted", kind=kind, case=what, item=item[:1500])
+    out.nontrivial = True
+    out.fingerprint = J.fp("contradiction_matrix")
+    out.sample = {"contradiction_matrix_cases": len(jobs), "example": jobs[0][2].split("\n")[:6]}
+    return out
 
 
 def run_param_matrix(case):
@@ -90,6 +142,8 @@ def build_mutant(case):
 def run_case(case):
     if "param_matrix" in case:
         return run_param_matrix(case)
+    if "contradiction_matrix" in case:
+        return run_contradiction_matrix(case)
     out = J.Outcome()
     spec, cfg = case["spec"], case["cfg"]
     base_ok, base_err = J.accepts(E.enum_item_text(spec, cfg))
